@@ -232,10 +232,20 @@ def run(tier, seed):
                 "names; reader options return_record_name / return_named_type and *_override; disable_tuple_notation; "
                 "non-trivial = schema with a union of >= 2 branches")
     run.lean(TARGETS, THEOREMS)
-    cases = union_cases(seed, scale(tier, 900))
+    all_cases = union_cases(seed, scale(tier, 900))
+    # in slices: the requests of a slice (big unions are megabytes on the wire) are dropped before the next slice is built
+    for lo in range(0, len(all_cases), 400):
+        _run_slice(run, all_cases[lo:lo + 400])
+    cases = all_cases
+    _after_slices(run, tier, cases)
+    return run.finish()
+
+
+def _run_slice(run, cases):
     reqs, idx = [], []
+    wss = {}
     for ci, (s, data, opts) in enumerate(cases):
-        ws = to_wire(s)
+        ws = wss[ci] = to_wire(s)
         for di, v in enumerate(data):
             reqs.append({"op": "spec.enc.rule", "schema": ws, "value": to_wire(v), "opts": opts})
             idx.append((ci, di))
@@ -299,7 +309,7 @@ def run(tier, seed):
             continue
         if "bytes" in ie:
             for ro in ROPTS:
-                dreqs.append({"op": "dec", "schema": to_wire(s), "bytes": ie["bytes"], "ropts": ro})
+                dreqs.append({"op": "dec", "schema": wss[ci], "bytes": ie["bytes"], "ropts": ro})
                 dmeta.append((ci, di, ie["bytes"], ro))
     douts = run_batch(dreqs)
     for (ci, di, hx, ro), mo in zip(dmeta, douts):
@@ -322,6 +332,9 @@ def run(tier, seed):
             case["impl"], case["model"] = io_, mo
             run.fail(case, "correspondence: reading with %s differs from the model" % ro, kind="correspondence")
             continue
+
+
+def _after_slices(run, tier, cases):
     # ---- unknown hint names are errors
     for (s, data, opts) in cases[:scale(tier, 200)]:
         if isinstance(s, list) and not opts.get("dtn"):
@@ -330,4 +343,3 @@ def run(tier, seed):
             if "bytes" in ie:
                 run.fail({"schema": s, "value": to_wire(("No.Such.Branch", data[0]))},
                          "a (name, value) hint naming no branch was written instead of raising", kind="oracle")
-    return run.finish()
